@@ -393,7 +393,9 @@ class Evidence:
                 "states": self.states, "transitions": self.transitions,
                 "traces_validated_against_impl": self.accepted,
                 "evaluations": self.judged, "distinct_nontrivial": self.nontrivial,
-                "rule": self.rule, "samples": self.samples[:12],
+                "rule": self.rule + " Every conformance phase listed under conformance_phases states its own enumeration rule in its label (the families "
+                        "added after the seeded-change rounds -- sizes, aliasing, histories, number classes, Unicode classes, own runtimes -- are phases of their own).",
+                "samples": self.samples[:12],
                 "exhaustive": self.exhaustive,
                 "model_checking_runs": self.mc_runs, "negative_controls": self.negative_controls,
                 "conformance_phases": self.phases,
